@@ -40,6 +40,10 @@ CHECKS = {
    technique="TLA+ spec (FsRun.tla: placements x crash points; FsRun_Trace.tla) checked with TLC; real `python -m ford` runs in sandbox trees with a failure injected at each successive mutating file-system call, whole-sandbox before/after snapshots, intercepted call log validated by TLC",
    text="TLC checks TouchedUnderRoots, SourcesSurvive, RefusedBeforeAnyDelete and RefusesWhenItMust over 14 placements (incl. symlinks and '..') and a crash before every step, and shows the two refusal-test deviations (no symlink resolution, last src_dir only) are caught. For every placement the real CLI is run with all copying options on, once cleanly and once per injected failure point (k-th mutating call raises EIO; every k in thorough, a seeded subset in quick); content hash + mode + link target of the whole sandbox are compared before/after and only paths under the resolved output / graph roots may differ; placements with a source directory inside the output directory must be refused with an untouched tree; the logged calls are replayed by TLC against the phase model.",
    note="Faults are injected at Python-level file-system calls (os.*, open, os.open) through a sitecustomize shim in the child's PYTHONPATH; child processes (dot) are covered by the snapshot only. Trusted: the shim, realpath, TLC."),
+ "C20": dict(level="fault_enumeration", ref="DESIGN.md 6/C20, 4.0, B.14",
+   technique="TLA+ umbrella spec (Pipeline.tla: ParseOk/ParseFail, correlate order, naming, write; Containment, NoRegistrationOfFailedFile, Terminates under fairness) model-checked with TLC; corrupted-file enumeration replayed differentially into FORD's parser/correlator under a watchdog",
+   text="TLC checks on the pipeline model that a failed file is never registered, every corrupt file is reported, the observable of the valid files is unaffected (Containment) and the run terminates, and that the as-built deviation (print_error only prints) is visible to these invariants. The replay corrupts a valid source at every statement boundary (truncation), drops/adds END, misplaces CONTAINS, splices garbage and undecodable bytes, adds 13 malformed constructs and pairs of corrupt files, places the file before/between/after the valid files in the read order, and compares canonical tree and page URLs of the valid files and the diagnostics with the run without it; every run is under a 60 s watchdog.",
+   note="One valid 3-file base project; default error settings. Files FORD accepts without any report are treated as ordinary sources (termination only). Trusted: TLC, canonical tree projection (vlib/tree.py), SIGALRM watchdog."),
 }
 
 NOT_YET = {}
